@@ -8,12 +8,16 @@ simulated process dies at that operation (every SimFS call boundary; all when N 
 operations (the two errors the logging code has branches for) without a kill.
 Oracle, from the simulated disk and the simulator's own operation log:
   * retained files read oldest -> newest hold the record stream in order, no record twice,
-    each file a contiguous stretch, each non-empty file starting with the header (after a
-    death an empty header-less newest file is tolerated);
+    each file a contiguous stretch, each non-empty file starting with the header (an empty
+    file - possible only as the newest one after a death - has nothing to start);
   * fault-free: nothing but the designed drop of the oldest copy ever removes a record, and
     the files end with the last record written;
   * a file is rotated only when it has reached the size threshold;
-  * after a death every record written before the most recent completed flush is present.
+  * after a death every record written before the most recent completed flush is present;
+  * with reuse, a new process is then started on the surviving image (same directory) and logs a
+    second stream to completion: the same clauses must hold for the files it leaves (the records
+    that died in the first process's user buffers are taken out of the reference stream; nothing
+    is tolerated about headers any more), and everything flushed before the death is still there.
 """
 import hashlib
 from fractions import Fraction
@@ -49,6 +53,7 @@ class C23(Check):
     rule = ("configurations keep in {1,2,3} x cycle period in {0.25,0.5,1,2} x size threshold in {0,20,60,200} x flush interval in "
             "{1,2} x reuse x logger period, 6-40 ticks of a unique-valued record stream ('always' rule); per configuration one "
             "crash-free run, then one run per kill point (every simulated file-system call; all if <= 70 else 70 spread evenly), "
+            "each killed run with reuse followed by a restart of the house on the surviving image logging a second stream, "
             "plus 4 runs with an injected rename / open error; non-trivial = at least one rotation happened before the kill; "
             "distinct = digest of (configuration, kill point, surviving files)")
     components = dict(COMPONENTS)
@@ -57,7 +62,7 @@ class C23(Check):
     assumptions = ["'dies' = process death: kernel-visible file state survives, user-space buffers do not; power loss is not modelled",
                    "records rotated out by design (the copy beyond 'keep') are not 'lost'",
                    "after a death an empty header-less newest file is not a violation"]
-    required_probes = ["rotated", "killed-mid-rotation", "killed-with-unflushed", "size-gated", "io-error-branch", "designed-drop"]
+    required_probes = ["rotated", "killed-mid-rotation", "killed-with-unflushed", "size-gated", "io-error-branch", "designed-drop", "restarted-after-kill"]
     quick_runs = 120
     thorough_runs = 6000
     shrink_fields = []
@@ -109,88 +114,102 @@ class C23(Check):
 
     def _one(self, plan, script, P, env, kill, faults, out, tr):
         faults = dict((int(k), v) for k, v in faults.items())
-        res, fs, killed = run_logged(script, float(P), env_table=env, kill_at=kill, faults=faults, cap=float((plan["ticks"] + 10) * P))
+        cap = float((plan["ticks"] + 10) * P)
+        res, fs, killed = run_logged(script, float(P), env_table=env, kill_at=kill, faults=faults, cap=cap)
         concrete = dict(plan)
         concrete["kill"] = kill
         concrete["faults"] = dict((str(k), v) for k, v in faults.items())
-        sig_cfg = "keep=%d size=%d reuse=%s" % (plan["keep"], plan["size"], plan["reuse"])
-
-        def bad(kind, what, detail):
-            out.violate(kind, what, "kill=%r faults=%r killed_op=%r: %s\nfiles=%r\nlast ops=%r\n%s"
-                        % (kill, faults, fs.killed_op, detail, fs.snapshot(), fs.log[-12:], script), plan=concrete)
-
-        if not killed and (res is None or not res.built or res.exc is not None):
-            bad("rejected", "logging program rejected or raised", "res exc=%r errors=%r" % (getattr(res, "exc", None), getattr(res, "build_errors", None)))
-            return 0
         if kill is None and not faults:
             self._ops = list(fs.log)
+        n = fs.nops
+        ok = self._judge(plan, script, concrete, res, fs, killed, kill, faults, out, tr, phase="death" if killed else "clean", lost=())
+        if ok and killed and plan["reuse"] and plan.get("restart", True):
+            # a new process starts on the surviving image (same directory because of reuse) and logs a second stream
+            held = set()
+            for ino in list(fs.files.values()) + [r[2] for r in fs.retired]:
+                held.update(ino.data)
+            lost = set(t for (i, p, t) in fs.written if t != HEADER and t not in held)     # died in a user buffer
+            must = self._durable(fs)
+            fs.revive()
+            env2 = {0: dict((t, [(".sim.v", "value", 2000 + t)]) for t in range(plan["ticks"] + 3))}
+            res2, fs, killed2 = run_logged(script, float(P), env_table=env2, cap=cap, fs=fs)
+            out.probe("restarted-after-kill")
+            self._judge(plan, script, concrete, res2, fs, killed2, kill, faults, out, tr, phase="restart", lost=lost, must=must)
+        return n
+
+    @staticmethod
+    def _durable(fs):
+        """Records written before the most recent completed application-level flush (Log.flush = file.flush + os.fsync)."""
+        lastflush = max([i for i, p in fs.fsync_log if p and p.rsplit("/", 1)[-1].startswith("l1")] or [-1])
+        return lastflush, [t for (i, p, t) in fs.written if t != HEADER and i < lastflush]
+
+    def _judge(self, plan, script, concrete, res, fs, killed, kill, faults, out, tr, phase, lost, must=None):
+        sig_cfg = "keep=%d size=%d reuse=%s" % (plan["keep"], plan["size"], plan["reuse"])
+        if phase == "restart":
+            sig_cfg += " after restart on the surviving image"
+
+        def bad(kind, what, detail):
+            out.violate(kind, what, "phase=%s kill=%r faults=%r killed_op=%r: %s\nfiles=%r\nlast ops=%r\n%s"
+                        % (phase, kill, faults, fs.killed_op, detail, fs.snapshot(), fs.log[-12:], script), plan=concrete)
+            return False
+
+        if not killed and (res is None or not res.built or res.exc is not None):
+            return bad("rejected", "logging program rejected or raised%s" % (" after restart" if phase == "restart" else ""),
+                       "res exc=%r errors=%r" % (getattr(res, "exc", None), getattr(res, "build_errors", None)))
         files = fs.snapshot()
         fam = sorted(p for p in files if p.rsplit("/", 1)[-1].startswith("l1"))
         if not fam:
             if killed:
-                return fs.nops
-            bad("no-file", "no log file", "files %r" % sorted(files))
-            return fs.nops
+                return True
+            return bad("no-file", "no log file", "files %r" % sorted(files))
         base = [p for p in fam if p.endswith("/l1.txt")]
         main = base[0] if base else fam[0].rsplit("/", 1)[0] + "/l1.txt"
         root = main[:-4]
         ordered = [p for p in sorted((p for p in fam if p != main), reverse=True)] + ([main] if main in files else [])
-        S = [t for (i, p, t) in fs.written if t != HEADER]         # the record stream in write order
+        S = [t for (i, p, t) in fs.written if t != HEADER and t not in lost]         # the record stream in write order
         pos = dict((t, i) for i, t in enumerate(S))
         if len(pos) != len(S):
             raise RuntimeError("harness: records are not unique")
         seen = []
-        newest_nonempty = None
         for p in ordered:
             text = files[p]
             if text == "":
                 continue
-            newest_nonempty = p
-            if not text.startswith(HEADER):
-                if not (killed and p == main):
-                    bad("header", "retained file does not start with the header [%s]" % sig_cfg, "file %s = %r" % (p, text[:80]))
-                    return fs.nops
-                body = text
-            else:
-                body = text[len(HEADER):]
+            if not text.startswith(HEADER):      # (an empty file has nothing to start: skipped above)
+                return bad("header", "retained file does not start with the header [%s]" % sig_cfg, "file %s = %r" % (p, text[:80]))
+            body = text[len(HEADER):]
             if HEADER in body:
-                bad("header", "header repeated inside a file [%s]" % sig_cfg, "file %s" % p)
-                return fs.nops
+                return bad("header", "header repeated inside a file [%s]" % sig_cfg, "file %s" % p)
             recs = [l + "\n" for l in body.split("\n") if l]
             idxs = []
             for r in recs:
                 if r not in pos:
-                    bad("garbage", "a retained file holds something that was never written as a record [%s]" % sig_cfg, "file %s line %r" % (p, r))
-                    return fs.nops
+                    return bad("garbage", "a retained file holds something that was never written as a record [%s]" % sig_cfg, "file %s line %r" % (p, r))
                 idxs.append(pos[r])
-            if idxs != list(range(idxs[0], idxs[0] + len(idxs))) if idxs else False:
-                bad("not-contiguous", "records inside one file are not a contiguous stretch of the stream [%s]" % sig_cfg, "file %s holds stream positions %r" % (p, idxs))
-                return fs.nops
+            if idxs and idxs != list(range(idxs[0], idxs[0] + len(idxs))):
+                return bad("not-contiguous", "records inside one file are not a contiguous stretch of the stream [%s]" % sig_cfg, "file %s holds stream positions %r" % (p, idxs))
             seen.extend(idxs)
         if seen != sorted(seen) or len(set(seen)) != len(seen):
-            bad("order", "records across the retained files are out of order or duplicated [%s]" % sig_cfg, "stream positions oldest->newest %r" % (seen,))
-            return fs.nops
+            return bad("order", "records across the retained files are out of order or duplicated [%s]" % sig_cfg, "stream positions oldest->newest %r" % (seen,))
         # nothing but the designed drop of the oldest copy may remove records
         oldest = "%s%02d.txt" % (root, plan["keep"])
         for path, how, ino in fs.retired:
             if not path.rsplit("/", 1)[-1].startswith("l1"):
                 continue
-            lost = [t for t in ino.data if t != HEADER and t in pos and pos[t] not in seen]
+            gone = [t for t in ino.data if t != HEADER and t in pos and pos[t] not in seen]
             if how == "rename-over" and path == oldest:
-                if lost:
+                if gone:
                     out.probe("designed-drop")
                 continue
-            if lost:
-                bad("lost", "retained records destroyed by %s of %s [%s]" % (how, path.rsplit("/", 1)[-1], sig_cfg), "%d records gone, first %r" % (len(lost), lost[0]))
-                return fs.nops
+            if gone:
+                return bad("lost", "retained records destroyed by %s of %s [%s]" % (how, path.rsplit("/", 1)[-1], sig_cfg), "%d records gone, first %r" % (len(gone), gone[0]))
         # rotation only at / above the size threshold
         for opi, old, new, size, over in fs.rename_log:
             if old == main:
                 out.probe("rotated")
                 out.nontrivial = True
                 if plan["size"] and size < plan["size"]:
-                    bad("early-rotation", "main file rotated below the size threshold [%s]" % sig_cfg, "size %d < %d at op %d" % (size, plan["size"], opi))
-                    return fs.nops
+                    return bad("early-rotation", "main file rotated below the size threshold [%s]" % sig_cfg, "size %d < %d at op %d" % (size, plan["size"], opi))
                 if plan["size"]:
                     out.probe("size-gated")
         designed = set()
@@ -198,31 +217,31 @@ class C23(Check):
             if how == "rename-over" and path == oldest:
                 designed.update(pos[t] for t in ino.data if t in pos)
         if not killed:
-            # everything written and not dropped by design is on disk, ending with the last record
+            # everything written (and not lost in the buffers of a process that died earlier) and not dropped by design is on disk
             missing = [i for i in range(len(S)) if i not in seen and i not in designed]
             if missing:
-                bad("missing", "records missing from the retained files after a crash-free run [%s]%s" % (sig_cfg, " (with injected I/O error)" if faults else ""),
-                    "stream positions %r of %d; retained %r" % (missing[:10], len(S), seen[:3] + ["..."] + seen[-3:]))
-                return fs.nops
+                return bad("missing", "records missing from the retained files after a crash-free run [%s]%s" % (sig_cfg, " (with injected I/O error)" if faults else ""),
+                           "stream positions %r of %d; retained %r" % (missing[:10], len(S), seen[:3] + ["..."] + seen[-3:]))
             if faults:
                 out.probe("io-error-branch")
+            if must is not None:
+                gone = [pos[t] for t in must[1] if t in pos and pos[t] not in seen and pos[t] not in designed]
+                if gone:
+                    return bad("not-durable", "records flushed before the process died are gone after the restart [%s]" % sig_cfg, "stream positions %r" % (gone[:10],))
         else:
             # durability: every record written before the most recent completed flush of its file is present
-            flushed_upto = -1
-            # "flush" as the application sees it: Log.flush() = file.flush() + os.fsync(); its completion is the fsync call
-            lastflush = max([i for i, p in fs.fsync_log if p and p.rsplit("/", 1)[-1].startswith("l1")] or [-1])
-            need = [pos[t] for (i, p, t) in fs.written if t != HEADER and i < lastflush]
+            lastflush, need_t = self._durable(fs)
+            need = [pos[t] for t in need_t]
             gone = [i for i in need if i not in seen and i not in designed]
             if gone:
-                bad("not-durable", "records written before the most recent flush are gone after the process died [%s]" % sig_cfg,
-                    "stream positions %r (last completed flush at op %d, died at %r)" % (gone[:10], lastflush, fs.killed_op))
-                return fs.nops
+                return bad("not-durable", "records written before the most recent flush are gone after the process died [%s]" % sig_cfg,
+                           "stream positions %r (last completed flush at op %d, died at %r)" % (gone[:10], lastflush, fs.killed_op))
             if any(i >= lastflush for (i, p, t) in fs.written if t != HEADER):
                 out.probe("killed-with-unflushed")
             if fs.killed_op and fs.killed_op[1] in ("rename", "open", "os.open", "fdopen") and fs.renames:
                 out.probe("killed-mid-rotation")
-        tr.add(kill, sorted(faults.items()), [(p, len(files[p])) for p in ordered], fs.nops)
-        return fs.nops
+        tr.add(phase, kill, sorted(faults.items()), [(p, len(files[p])) for p in ordered], fs.nops)
+        return True
 
     simplify = None
 
